@@ -1,7 +1,49 @@
 // unit `solver_new` : the CONSTRUCTION path (C04 "constructing a solver and calling solve returns without panicking ... Inconsistent
 // dimensions are rejected at construction (documented panic) rather than producing a result"; C01 / C03: the report vectors have the
 // user's lengths n, m).  float model: F-opaque; the F-real reading appears only in the precondition that `equilibrate` (unit csc_math)
-// carries (scaling bounds) -- canary_real_axioms MUST fail.
+// carries (scaling bounds) -- canary_real_axioms MUST fail.   Companion unit: solver_new_data (update_data, presolve, DefaultProblemData::new).
+//
+// PROVED from the real text (extracted, never retyped):
+//   DefaultSolver::new  (solver.rs; rules R1, R6, R7t: the four timeit! blocks are written out as start_as_current / stop_current)  TWICE:
+//     (A) `new`: consistent dimensions (+ the preconditions listed in new_pre_other) ==> returns, no panic -- in particular
+//         `assert_eq!(cones.numel, data.m)` never fires -- and the solver satisfies the precondition of `solve` (timers is Some, variables /
+//         step_lhs / step_rhs / prev_vars all of dims (data.n, data.m, data.m)); the report vectors have the USER's lengths (A.n, A.m, A.m);
+//         residuals (n, m); cones.numel == data.m; KKT system built for (n, m); shapes_ok = the precondition of DefaultSolution::post_process
+//         (unit postprocess); settings stored as given.
+//     (B) `new_returns` (module returns_view, against the R26 contract of _check_dimensions): WHENEVER the constructor returns, the dimensions
+//         were consistent -- inconsistent dimensions never produce a solver (documented panic = divergence).
+//   supportedcone.rs:  make_cone (same family, numel = nvars, exponents kept; requires what the member constructors assert),
+//     both as_tag impls, nvars (2nd extraction), RangeSupportedConesIterator::next and rng_cones_iter (k-th range =
+//     cone_start(k) .. cone_start(k+1): contiguous from 0, length nvars(k); lemma_cone_partition: every row below the total lies in one).
+//   member constructors / size functions used by make_cone: ZeroCone::new/numel/is_symmetric, NonnegativeCone::new/numel/is_symmetric,
+//     SecondOrderConeSparseData::new, SecondOrderCone::new/numel/is_symmetric, ExponentialCone::numel/is_symmetric, PowerCone::numel/is_symmetric,
+//     GenPowerCone::new/dim1/dim2/dim/numel/is_symmetric.
+//   CompositeCone::new, FIRST half as statement slice `new_head` (compositecone.rs; rules R1, R30, drop: the two HashMap statements): one
+//     internal cone per description (same family, same size), numel = sum of nvars, _is_symmetric = AND of the members' flags.
+//   settings.rs:  validate_direct_solve_method (Ok <=> "auto" | "qdldl"), DefaultSettings::validate, DefaultSettingsBuilder::validate
+//     (unset => Ok), core_mut (the same object).  New additive rule `fmtmsg`: format!(..) -> fmt_message().
+// ASSUMED (stand-ins; where a contract is PROVED in another unit its text is copied and the unit named at the declaration):
+//   _check_dimensions (postprocess, both extractions), DefaultSolution::new / DefaultVariables::new / DefaultResiduals::new (variables),
+//   equilibrate (csc_math; PLUS the precondition `cones.numel == e.len()` of CompositeCone::rectify_equilibration proved in unit composite,
+//   which csc_math's own cone stand-in lacks: observation O1), DefaultKKTSystem::new (kkt_solve), CompositeCone::new (new_head here +
+//   new_tail in composite; the struct literal joining the halves is not extracted).
+//   NOT PROVED ANYWHERE:  DefaultProblemData::new as a whole -- data.n == A.n, data.m == sum of nvars(data.cones) <= A.m, shape_ok, identity
+//     scalings, presolver mask of the user's length with data.m entries true, collapsed cones constructible; unit solver_new_data derives the
+//     dimension clauses from two statement slices, what remains assumed is listed there (new_collapsed, reduce_cones, CSC well-formedness
+//     of a triangularised P).  DefaultInfo::new (= derive(Default)), Timers (opaque, nothing assumed), linear_solver_info (opaque),
+//     ExponentialCone::new / PowerCone::new (DenseMatrixSym3::zeros, array repeat: total by inspection), GenPowerConeData::new (its two
+//     asserts = the uninterpreted genpow_alpha_ok: documented panic "alpha must sum to 1"), Option::replace, <[T]>::to_vec (element-wise
+//     clone), str extensionality (ax_str_ext), the F-real axiom group.
+//   macro expansions written out by hand (bodies verified): derive(Clone) on SupportedConeT; enum_dispatch's `From<X> for SupportedCone`,
+//     `SupportedCone::numel / is_symmetric`; derive_builder's DefaultSettingsBuilder (one field kept).
+//   Stand-in types: Timers, LinearSolverInfo, PrintTarget, CompositeCone {numel}, DefaultKKTSystem, GenPowerConeData, local traits
+//     `Iterator` / `ConeRanges` (module cone_ranges: a Verus impl cannot add `requires` to std's Iterator::next), SupportedConeAsTag.
+// requires of `new` beyond consistent dimensions (new_pre_other): well-formed CSC P and A (new never calls check_format: a malformed matrix
+//   panics later), settings.direct_kkt_solver (documented panic otherwise), 0 < equilibrate_min_scaling <= 1 <= equilibrate_max_scaling
+//   (precondition of the PROVED equilibrate contract; panic-freedom for other bounds is therefore not covered), valid generalized-power
+//   exponents, no usize wrap in a cone size / the row total.
+// DROPPED: PSDTriangleConeT / PSDTriangleCone arms and validate_chordal_decomposition_merge_method (feature sdp, off by default: R12),
+//   the "faer" arm (feature faer-sparse), new_collapsed, SupportedConeTag::as_str, Display, type_counts of CompositeCone::new.
 use vstd::prelude::*;
 use std::marker::PhantomData;
 verus! {
@@ -145,13 +187,14 @@ impl DefaultResiduals<F> {
     { unimplemented!() }
 }
 
-// CompositeCone::new -- numel = sum of the member cones' sizes: PROVED in unit composite (statement slice new_tail);
-// member i = make_cone(cones[i]) has numel = nvars(cones[i]): by inspection of the seven `XCone::new(dim)` (see make_cone below);
-// the map over the list (first half of CompositeCone::new) is NOT extracted.  Hence ASSUMED as a whole, in this form:
+// CompositeCone::new -- `numel` = the sum of nvars over the descriptions: PROVED in two statement slices, the first half (copy of
+// the list, make_cone per description, sum of the members' numel) as `new_head` further down in THIS unit, the second half (degree,
+// index ranges) as `new_tail` in unit composite; the struct literal that joins them is not extracted.  The requires are those of
+// new_head: the member constructors assert `dim >= 2` (second-order cone) and valid exponents (generalized power cone).
 impl CompositeCone<F> {
     #[verifier::external_body]
     pub fn new(types: &[SupportedConeT<F>]) -> (r: Self)
-        requires total_nvars(types@) <= usize::MAX, nvars_fit(types@),
+        requires total_nvars(types@) <= usize::MAX, all_constructible(types@),
         ensures r.numel == total_nvars(types@),
     { unimplemented!() }
 }
@@ -178,6 +221,9 @@ impl DefaultProblemData<F> {
         ensures
             r.n == A.n, r.m <= A.m,
             r.m == total_nvars(r.cones@), nvars_fit(r.cones@),
+            // new_collapsed (NOT under contract; by inspection): empty cones are removed, second-order cones of dimension 1 become
+            // nonnegative cones, everything else is cloned -- so no second-order cone of dimension < 2 is left
+            genpow_inputs_ok(cones@) ==> all_constructible(r.cones@),
             r.shape_ok(), r.equilibration.d@.len() == r.n, r.equilibration.e@.len() == r.m,
             all_eq(r.equilibration.d@, f_one()), all_eq(r.equilibration.e@, f_one()), r.equilibration.c == f_one(),
             match r.presolver {
@@ -227,8 +273,9 @@ impl DefaultKKTSystem<F> {
 // ------------------------------------------------------------------ DefaultSolver::new
 // what the caller must supply, besides consistent dimensions, for the construction to go through without a panic
 pub open spec fn new_pre_other(P: CscMatrix<F>, A: CscMatrix<F>, cones: Seq<SupportedConeT<F>>, settings: DefaultSettings<F>) -> bool {
-    // no cone dimension wraps (alpha.len() + dim2 of a GenPowerConeT)
-    &&& nvars_fit(cones)
+    // no cone dimension wraps (alpha.len() + dim2 of a GenPowerConeT); generalized power cones carry valid exponents
+    // ("The alpha terms must sum to 1": asserted by GenPowerConeData::new, a documented panic otherwise)
+    &&& nvars_fit(cones) && genpow_inputs_ok(cones)
     // well-formed CSC inputs (new never calls check_format)
     &&& csc_wf(P) && csc_wf(A)
     // documented panic otherwise ("Indirect and other solve strategies not yet supported.")
@@ -619,6 +666,9 @@ pub open spec fn made_from(cones: Seq<SupportedCone<F>>, types: Seq<SupportedCon
     forall|i: int| 0 <= i < k ==> tag_of(#[trigger] cones[i]) == tag_of_t(types[i]) && sc_numel(cones[i]) == nvars_spec(types[i])
 }
 pub open spec fn all_sym(cones: Seq<SupportedCone<F>>, k: int) -> bool { forall|i: int| 0 <= i < k ==> sc_sym(#[trigger] cones[i]) }
+pub open spec fn genpow_inputs_ok(cones: Seq<SupportedConeT<F>>) -> bool {
+    forall|k: int| 0 <= k < cones.len() ==> match #[trigger] cones[k] { SupportedConeT::GenPowerConeT(a, _) => genpow_alpha_ok(a@), _ => true }
+}
 pub open spec fn all_constructible(types: Seq<SupportedConeT<F>>) -> bool {
     forall|k: int| 0 <= k < types.len() ==> cone_constructible(#[trigger] types[k])
 }
